@@ -20,6 +20,9 @@ def _shapes(tier):
 
 def cfg_pixel(tier, seed):
     out = [{'shape': list(s), 'os': os} for s in _shapes(tier) for os in (1, 2, 3) if s[0] * s[1] <= 12]
+    # a side with a large prime factor (FFT libraries treat such lengths specially), both orientations
+    # (13th roots of unity are outside the exact trigonometry: concrete-only configurations, 6 sampled images each)
+    out += [{'shape': [1, 13], 'os': 2, '_concrete': 6}, {'shape': [13, 1], 'os': 3, '_concrete': 6}, {'shape': [2, 13], 'os': 2, '_concrete': 6}]
     return out, len(out), True
 
 
